@@ -69,7 +69,7 @@ class Actor(object):
         self.world = world
         self.cfg = cfg
         self.router = router
-        self.collab = Collab()
+        self.collab = Collab(world.get("triggers"))
         self.explicit_base = None
         draft = world["draft"]
         store_urls = list(world.get("store_docs", ())) if cfg.get("use_store", True) else []
